@@ -919,7 +919,12 @@ func do_WITH_CLEANUP(vm *Vm, arg int32) error {
 
 	wasErr := false
 	if exc != py.None {
-		wasErr = res == py.True
+		// Any true value returned by __exit__ silences the exception
+		b, err := py.MakeBool(res)
+		if err != nil {
+			return err
+		}
+		wasErr = b == py.True
 	}
 	if wasErr {
 		/* There was an exception and a True return */
